@@ -40,3 +40,22 @@ PROPS["C09"] = dict(
                  "the AngNormalize/AngDiff contract (range and congruence mod 360) is decided exactly per sampled input, not proved for all doubles (C16)",
                  "order-7 coefficients of the auxiliary-latitude series are bounded by 100 (series-mode tolerance at |f| = 0.01)"],
 )
+
+# ---- deepening round (G09) -------------------------------------------------------------------------------------------
+import hashlib as _hl, os as _os
+_verif = _os.path.dirname(_os.path.dirname(_os.path.dirname(_os.path.abspath(__file__))))
+_repo = _os.environ.get("GV_REPO", "/repo")
+
+
+def _tool_digest():
+    # harness/C09.cpp compiles $GV_REPO/tools/RhumbSolve.cpp into itself (observe_at: tools/RhumbSolve): the harness cache key must
+    # depend on its text (the generic key covers only the library and the harness sources)
+    try:
+        return _hl.sha256(open(_os.path.join(_repo, "tools", "RhumbSolve.cpp"), "rb").read()).hexdigest()[:16]
+    except OSError:
+        return "0"
+
+
+_P = PROPS["C09"]
+_P["harnesses"] = [dict(name="C09", procs_quick=2, procs_thorough=16,
+                        extra=["-I" + _os.path.join(_verif, "harness", "C09_tools"), "-DGV_TOOLS_DIGEST=0x" + _tool_digest()])]
